@@ -373,9 +373,20 @@ def result_leaves(res):
     return snap(res)
 
 
+def snap_detached(res):
+    """Snapshot (clones) of a result, so that later aliasing writes cannot change the reference."""
+    return _Snap(snap(res))
+
+
+class _Snap:
+    def __init__(self, leaves):
+        self.leaves = leaves
+
+
 def compare_results(r1, r2):
     """None if the two results agree, else a short description."""
-    l1, l2 = result_leaves(r1), result_leaves(r2)
+    l1 = r1.leaves if isinstance(r1, _Snap) else result_leaves(r1)
+    l2 = r2.leaves if isinstance(r2, _Snap) else result_leaves(r2)
     if set(l1) != set(l2):
         odd = sorted(set(l1) ^ set(l2))[:3]
         return f'result structure differs at {odd}'
@@ -433,6 +444,7 @@ def run_history(case, history, fresh_check=True):
     problems, skipped, notes = [], [], []
     shared = 0
     earlier = []  # (step, call, leaves of earlier results)
+    first_result = {}  # call spec -> (step, result) of its first execution on this instance
 
     def add(i, call, what, detail):
         problems.append({'step': i, 'call': call['call'], 'what': what, 'detail': detail[:300]})
@@ -500,6 +512,14 @@ def run_history(case, history, fresh_check=True):
                     add(i, call, 'history_dependent', msg)
             elif exc.split(':')[0] != exc2.split(':')[0]:
                 add(i, call, 'history_dependent', f'raises {exc} after this history but {exc2} on a fresh instance')
+        # (c') repeating a call on the same instance gives the same result
+        key = repr(sorted(call.items(), key=lambda kv: kv[0]))
+        if key in first_result and exc is None:
+            msg = compare_results(res, first_result[key][1])
+            if msg:
+                add(i, call, 'history_dependent', f'repeating the call of step {first_result[key][0]} gives another result: {msg}')
+        elif exc is None:
+            first_result[key] = (i, snap_detached(res))
         # (d) aliasing of outputs with caller-owned storage (allowed, recorded)
         if res is not None:
             st = reg.storages()
@@ -580,7 +600,12 @@ def nontrivial(case):
     h = case['history']
     if len(h) < 2:
         return False
-    sig = {(c['call'], json_key(c.get('arg', {}).get('kind')), json_key(c.get('arg', {}).get('dtype'))) for c in h}
+    sig = set()
+    for c in h:
+        a = c.get('arg', {})
+        sig.add((c['call'],) + tuple(json_key(a.get(k)) for k in ('kind', 'dtype', 'batch', 'variant', 'shape', 'shapes', 'init',
+                                                                    'n_other', 'idx', 'n'))
+                + (json_key((a.get('sigma') or {}).get('form')), json_key((a.get('sigma') or {}).get('values'))))
     return len(sig) >= 2
 
 
@@ -605,6 +630,8 @@ def gen_for(names, quick_n, thorough_n):
                 ln = min(ln, t.max_len if tier == 'quick' else 2 * t.max_len)
             case = {'target': t.name, 'seed': rng.randrange(10 ** 6), 'dtype': dt, 'cfg': cfg, 'history': []}
             case['history'] = [t.gen_call(rng, cfg, dt, tier) for _ in range(ln)]
+            if ln >= 3 and rng.random() < 0.35:  # repeat an earlier call verbatim at the end
+                case['history'][-1] = copy.deepcopy(case['history'][rng.randrange(ln - 2)])
             cases.append(case)
         return cases
     return gen
@@ -670,10 +697,15 @@ def make_kdata(cfg, seed, own, name='kdata', dt='c64', traj='cartesian'):
 # ------------------------------------------------------------------------------------------------
 # linear operators
 # ------------------------------------------------------------------------------------------------
-def other_dt(rng, dt, p=0.25):
+_PARTNER = {'c64': 'c128', 'c128': 'c64', 'f32': 'f64', 'f64': 'f32'}
+
+
+def other_dt(rng, dt, p=0.3):
     """Mostly the dtype of the case, sometimes the other precision / the real-complex partner."""
     if rng.random() >= p:
         return dt
+    if rng.random() < 0.5:
+        return _PARTNER[dt]
     return rng.choice([d for d in ('c64', 'c128', 'f32', 'f64') if d != dt])
 
 
@@ -744,7 +776,8 @@ def lin_build(builder):
             rng_shape = dom
         elif mode == 'swap':
             dom, rng_shape = rng_shape, dom
-        return {'op': op, 'watch': [op, base], 'dom': list(dom), 'rng': list(rng_shape), **(extra or {})}
+        return {'op': op, 'watch': [op, base], 'dom': list(dom), 'rng': list(rng_shape) if rng_shape is not None else None,
+                **(extra or {})}
     return build
 
 
@@ -1017,7 +1050,7 @@ def _b_sens(cfg, dt, seed, own):
     return SensitivityOp(csm), [1] + cfg['zyx'], shape, None
 
 
-add_linop('SensitivityOp', _cfg_sens, _b_sens, weight=1.5)
+add_linop('SensitivityOp', _cfg_sens, _b_sens, weight=2.5)
 
 
 def _cfg_dcfop(rng, dt):
@@ -1082,8 +1115,9 @@ add_linop('GridSamplingOp', _cfg_grid, _b_grid)
 
 def _cfg_slice(rng, dt):
     n = rng.choice([3, 4])
-    return {'n': n, 'shift': rng.choice([None, 'float', 'tensor']), 'width': rng.choice([1.0, 2.0]),
-            'optimize_for': rng.choice(['forward', 'adjoint', 'both']), 'batches': [[]],
+    return {'n': n, 'shift': rng.choice([None, 'float', 'tensor']), 'width': rng.choice([1.0, 2.0]), 'rot': rng.random() < 0.4,
+            'optimize_for': rng.choice(['forward', 'adjoint', 'both']), 'batches': [[]], 'dtypes': ['f32', 'c64'],
+            '_dtype': {'f64': 'f32', 'c128': 'c64'}.get(dt, dt),
             'calls': ['forward', 'adjoint', 'H_forward', 'forward', 'adjoint', 'gram'],
             'wrap': rng.choice(['none', 'none', 'scalar_left', 'adj'])}
 
@@ -1098,6 +1132,10 @@ def _b_slice(cfg, dt, seed, own):
         kw['slice_shift'] = 0.5
     elif cfg['shift'] == 'tensor':
         kw['slice_shift'] = own('ctor.slice_shift', torch.tensor([-0.5, 1.0]))
+    if cfg.get('rot'):
+        from mrpro.data import Rotation
+        rv = own('ctor.rotvec', torch.tensor([0.25, -0.5, 0.125]))
+        kw['slice_rotation'] = own('ctor.slice_rotation', Rotation.from_rotvec(rv))
     op = SliceProjectionOp(ishape, slice_profile=cfg['width'], optimize_for=cfg['optimize_for'], **kw)
     return op, [n, n, n], None, None
 
@@ -1105,9 +1143,818 @@ def _b_slice(cfg, dt, seed, own):
 add_linop('SliceProjectionOp', _cfg_slice, _b_slice, max_len=5)
 
 
-LINOP_NAMES = [k for k in TARGETS]
+# -- LinearOperatorMatrix --------------------------------------------------------------------------------
+def _cfg_opmatrix(rng, dt):
+    return {'rows': rng.randint(1, 2), 'cols': rng.randint(1, 2), 'n': [rng.randint(1, 3) for _ in range(2)],
+            'm': [rng.randint(1, 3) for _ in range(2)], 'mkind': rng.choice(KINDS), 'how': rng.choice(['ctor', 'stack', 'scaled'])}
+
+
+def _build_opmatrix(case, own):
+    import mrpro.operators as ops
+    c, dt = case['cfg'], case['dtype']
+    es = [[ops.EinsumOp(make_tensor({'shape': [c['m'][i], c['n'][j]], 'dtype': dt, 'kind': c['mkind'], 'seed': case['seed'] + 7 * i + j},
+                                    own, f'ctor.matrix{i}{j}')) for j in range(c['cols'])] for i in range(c['rows'])]
+    if c['how'] == 'stack' and c['rows'] == 2 and c['cols'] == 2:
+        op = (es[0][0] | es[0][1]) & (es[1][0] | es[1][1])
+    else:
+        op = ops.LinearOperatorMatrix(es)
+    if c['how'] == 'scaled':
+        op = 2.0 * op
+    return {'op': op, 'watch': [op] + [e for r in es for e in r]}
+
+
+def _gen_opmatrix(rng, cfg, dt, tier):
+    call = rng.choice(['forward', 'forward', 'adjoint', 'H_forward', 'operator_norm'])
+    dom = call in ('forward', 'operator_norm')
+    k = cfg['cols'] if dom else cfg['rows']
+    sizes = cfg['n'] if dom else cfg['m']
+    b = rng.choice([[], [], [2]])
+    adt = other_dt(rng, dt, 0.15) if call != 'operator_norm' else {'f64': 'f32', 'c128': 'c64'}.get(dt, dt)
+    return _multi_call(rng, [call], k, [b + [sizes[i]] for i in range(k)], adt)
+
+
+def _run_opmatrix(ctx, call, own, tag):
+    xs = _multi_args(call['arg'], own, tag, ctx)
+    op, name = ctx['op'], call['call']
+    if name == 'adjoint':
+        return op.adjoint(*xs)
+    if name == 'H_forward':
+        return op.H(*xs)
+    if name == 'operator_norm':
+        return op.operator_norm(*xs, dim=None, max_iterations=2)
+    return op(*xs)
+
+
+LINOP_NAMES = [k for k in TARGETS] + ['LinearOperatorMatrix']
+
+
+# ------------------------------------------------------------------------------------------------
+# non-linear operators and signal models
+# ------------------------------------------------------------------------------------------------
+def _multi_args(a, own, tag, ctx):
+    xs = []
+    for k, (kind, sh) in enumerate(zip(a['kinds'], a['shapes'])):
+        xs.append(make_tensor({'shape': sh, 'dtype': a['dtype'], 'kind': kind, 'seed': a['seed'] + k,
+                               'lo': a.get('lo', -8), 'hi': a.get('hi', 8)}, own, f'{tag}.x{k}'))
+    _fire(ctx)
+    return xs
+
+
+def _multi_call(rng, names, n, shapes, dt, **kw):
+    kinds = [rng.choice(KINDS) for _ in range(n)]
+    return {'call': rng.choice(names), 'arg': {'kinds': kinds, 'kind': '+'.join(sorted(set(kinds))), 'shapes': shapes,
+                                               'dtype': dt, 'seed': rng.randrange(10 ** 6), **kw}}
+
+
+_BOUNDS = [[None, None], [0.0, None], [None, 1.0], [-1.0, 2.0], [0.5, 3.0], [-2.0, None]]
+
+
+def _cfg_constraints(rng, dt):
+    n = rng.randint(1, 3)
+    return {'bounds': [rng.choice(_BOUNDS) for _ in range(n)], 'beta_sigmoid': rng.choice([1.0, 2.0, 0.5]),
+            'beta_softplus': rng.choice([1.0, 2.0, 0.5]), 'extra': rng.random() < 0.3, '_dtype': REAL_OF[dt]}
+
+
+def _build_constraints(case, own):
+    from mrpro.operators import ConstraintsOp
+    c = case['cfg']
+    op = ConstraintsOp([tuple(b) for b in c['bounds']], c['beta_sigmoid'], c['beta_softplus'])
+    return {'op': op, 'watch': [op]}
+
+
+def _gen_constraints(rng, cfg, dt, tier):
+    n = len(cfg['bounds']) + (1 if cfg['extra'] else 0)
+    shape = [rng.randint(1, 4) for _ in range(rng.randint(0, 2))]
+    return _multi_call(rng, ['forward', 'forward', 'inverse'], n, [shape] * n, other_dt(rng, dt, 0.2) if rng.random() < 0.9 else dt)
+
+
+def _run_multi(ctx, call, own, tag):
+    xs = _multi_args(call['arg'], own, tag, ctx)
+    op = ctx['op']
+    if call['call'] == 'inverse':
+        return op.inverse(*xs)
+    return op(*xs)
+
+
+TARGETS['LinearOperatorMatrix'] = Target('LinearOperatorMatrix', _cfg_opmatrix, _build_opmatrix, _gen_opmatrix, _run_opmatrix, 1.0)
+TARGETS['ConstraintsOp'] = Target('ConstraintsOp', _cfg_constraints, _build_constraints, _gen_constraints, _run_multi, 1.5)
+
+
+def _cfg_magphase(which):
+    def cfg(rng, dt):
+        return {'n': rng.randint(1, 3)}
+
+    def build(case, own):
+        import mrpro.operators as ops
+        op = getattr(ops, which)()
+        return {'op': op, 'watch': [op]}
+
+    def gen_call(rng, cfg, dt, tier):
+        shape = [rng.randint(1, 4) for _ in range(rng.randint(0, 3))]
+        return _multi_call(rng, ['forward'], cfg['n'], [shape] * cfg['n'], other_dt(rng, dt, 0.4))
+    TARGETS[which] = Target(which, cfg, build, gen_call, _run_multi, 0.6)
+
+
+_cfg_magphase('MagnitudeOp')
+_cfg_magphase('PhaseOp')
+
+MODELS = {  # name -> (constructor tensor arguments (name, is time axis), number of forward parameters)
+    'InversionRecovery': (['ti'], 2), 'SaturationRecovery': (['ti'], 2), 'MonoExponentialDecay': (['decay_time'], 2),
+    'MOLLI': (['ti'], 3), 'WASABI': (['offsets'], 4), 'WASABITI': (['offsets', 'trec'], 3),
+    'TransientSteadyStateWithPreparation': (['sampling_time'], 3),
+}
+
+
+def _add_model(name):
+    ctor, npar = MODELS[name]
+
+    def cfg(rng, dt):
+        c = {'T': rng.randint(1, 4), 'kinds': [rng.choice(KINDS) for _ in ctor], 'constrained': rng.random() < 0.25,
+             'scalar_form': rng.choice(['float', 'tensor']), '_dtype': REAL_OF[dt]}
+        return c
+
+    def build(case, own):
+        import mrpro.operators as ops
+        from mrpro.operators import models
+        c, dt = case['cfg'], case['dtype']
+        args = [make_tensor({'shape': [c['T']], 'dtype': dt, 'kind': k, 'seed': case['seed'] + i, 'lo': 1, 'hi': 8}, own,
+                            f'ctor.{n}') for i, (n, k) in enumerate(zip(ctor, c['kinds']))]
+        kw = {}
+        if name == 'TransientSteadyStateWithPreparation':
+            if c['scalar_form'] == 'tensor':
+                kw = {'repetition_time': own('ctor.repetition_time', torch.tensor(0.5, dtype=DT[dt])),
+                      'm0_scaling_preparation': own('ctor.m0_scaling_preparation', torch.tensor(-1.0, dtype=DT[dt])),
+                      'delay_after_preparation': own('ctor.delay_after_preparation', torch.tensor(0.25, dtype=DT[dt]))}
+            else:
+                kw = {'repetition_time': 0.5, 'm0_scaling_preparation': -1.0, 'delay_after_preparation': 0.25}
+        elif name in ('WASABI', 'WASABITI') and c['scalar_form'] == 'tensor':
+            kw = {'tp': own('ctor.tp', torch.tensor(0.005, dtype=DT[dt])), 'b1_nom': own('ctor.b1_nom', torch.tensor(3.75, dtype=DT[dt]))}
+        model = getattr(models, name)(*args, **kw)
+        op = model
+        if c['constrained']:
+            op = model @ ops.ConstraintsOp([(0.0, None)] * npar)
+        return {'op': op, 'watch': [op, model]}
+
+    def gen_call(rng, cfg, dt, tier):
+        shape = [rng.randint(1, 3) for _ in range(rng.randint(1, 2))]
+        shapes = [shape] * npar
+        if rng.random() < 0.3:  # broadcasting between the parameters
+            shapes = [shape if rng.random() < 0.5 else [1] * (len(shape) - 1) + [shape[-1]] for _ in range(npar)]
+        adt = dt if rng.random() < 0.8 else rng.choice(['f32', 'f64', 'c64'])
+        return _multi_call(rng, ['forward'], npar, shapes, adt, lo=1, hi=6)
+    TARGETS[name] = Target(name, cfg, build, gen_call, _run_multi, 1.0)
+
+
+for _m in MODELS:
+    _add_model(_m)
+NONLIN_NAMES = [k for k in TARGETS if k not in LINOP_NAMES]
+
+
+# ------------------------------------------------------------------------------------------------
+# functionals
+# ------------------------------------------------------------------------------------------------
+SIGMA_FORMS = ['py', 'py', '0dim', '0dim', '1elem', '1elem', 'broadcast', 'broadcast', 'full', 'expanded', 'view']
+SIGMA_VALUES = ['normal', 'normal', 'tiny', 'tiny', 'zero', 'mixed', 'mixed']
+_TINY = [1e-10, 1e-9, 1e-12, 0.0, 9e-9]
+
+
+def sigma_spec(rng):
+    return {'form': rng.choice(SIGMA_FORMS), 'values': rng.choice(SIGMA_VALUES), 'seed': rng.randrange(10 ** 6),
+            'v': rng.choice([0.25, 0.5, 1.0, 2.0]), 'tiny': rng.choice(_TINY)}
+
+
+def make_sigma(spec, xshape, rdt, own, name):
+    """sigma as python number, 0-dim / 1-element / broadcastable / full / expanded / view tensor; often tiny or zero."""
+    form, vals = spec['form'], spec['values']
+    scalar = {'normal': spec['v'], 'tiny': spec['tiny'], 'zero': 0.0, 'mixed': spec['tiny']}[vals]
+    if form == 'py':
+        return int(scalar) if float(scalar).is_integer() and scalar >= 1 and spec['seed'] % 2 else float(scalar)
+    dtype = DT[rdt]
+    if form == '0dim':
+        return own(name, torch.tensor(scalar, dtype=dtype))
+    if form == '1elem':
+        return own(name, torch.tensor([scalar], dtype=dtype))
+    g = torch.Generator().manual_seed(spec['seed'])
+    xshape = list(xshape)
+    if form == 'expanded':
+        base = own(name + '.base', torch.tensor([scalar], dtype=dtype).reshape([1] * max(len(xshape), 1)))
+        return own(name, base.expand(xshape if xshape else [1]))
+    if form == 'broadcast' and xshape:
+        shape = [1] * len(xshape)
+        shape[-1] = xshape[-1]
+    else:
+        shape = xshape if xshape else [1]
+
+    def values(shape):
+        t = torch.randint(1, 9, shape, generator=g).to(dtype) * 0.25
+        if vals in ('tiny', 'zero'):
+            t = torch.full(shape, scalar, dtype=dtype)
+        elif vals == 'mixed':
+            mask = torch.rand(shape, generator=g) < 0.5
+            t = torch.where(mask, torch.tensor(scalar, dtype=dtype), t)
+        return t
+    if form == 'view':
+        big = list(shape)
+        big[-1] += 2
+        base = own(name + '.base', values(big))
+        return own(name, base[..., 1:-1])
+    return own(name, values(shape))
+
+
+def _cfg_functional(cls):
+    def cfg(rng, dt):
+        nd = rng.randint(1, 3)
+        shape = [rng.randint(1, 4) for _ in range(nd)]
+        dim = rng.choice([None, None, [-1], sorted(rng.sample(range(nd), rng.randint(1, nd)))])
+        return {'shape': shape, 'target': rng.choice(['none', 'scalar', 'tensor', 'tensor', 'broadcast']),
+                'weight': rng.choice(['float', 'float', 'tensor', 'tensor0', 'broadcast']), 'tkind': rng.choice(KINDS),
+                'wkind': rng.choice(KINDS), 'dim': dim, 'divide_by_n': rng.random() < 0.4, 'keepdim': rng.random() < 0.6,
+                'scaled': rng.choice(['no', 'no', 'no', 'float', 'tensor'])}
+    return cfg
+
+
+def _mk_functional(cls, c, dt, seed, own, prefix='ctor'):
+    from mrpro.operators import functionals
+    shape = c['shape']
+    kw = {'dim': c['dim'], 'divide_by_n': c['divide_by_n'], 'keepdim': c['keepdim']}
+    if c['target'] == 'scalar':
+        kw['target'] = 0.5
+    elif c['target'] in ('tensor', 'broadcast'):
+        sh = shape if c['target'] == 'tensor' else [1] * (len(shape) - 1) + [shape[-1]]
+        kw['target'] = make_tensor({'shape': sh, 'dtype': dt, 'kind': c['tkind'], 'seed': seed + 1}, own, f'{prefix}.target')
+    if c['weight'] == 'float':
+        kw['weight'] = 2.0
+    elif c['weight'] == 'tensor0':
+        kw['weight'] = own(f'{prefix}.weight', torch.tensor(0.5, dtype=DT[REAL_OF[dt]]))
+    else:
+        sh = shape if c['weight'] == 'tensor' else [1] * (len(shape) - 1) + [shape[-1]]
+        kw['weight'] = make_tensor({'shape': sh, 'dtype': REAL_OF[dt], 'kind': c['wkind'], 'seed': seed + 2, 'lo': 1, 'hi': 8}, own,
+                                   f'{prefix}.weight')
+    f = getattr(functionals, cls)(**kw)
+    base = f
+    if c['scaled'] == 'float':
+        f = 2.0 * f
+    elif c['scaled'] == 'tensor':
+        f = own(f'{prefix}.scale', torch.tensor(0.5, dtype=DT[REAL_OF[dt]])) * f
+    return f, base
+
+
+def _add_functional(cls):
+    def build(case, own):
+        f, base = _mk_functional(cls, case['cfg'], case['dtype'], case['seed'], own)
+        return {'op': f, 'watch': [f, base], 'shape': case['cfg']['shape']}
+
+    def gen_call(rng, cfg, dt, tier):
+        call = rng.choice(['forward', 'prox', 'prox', 'prox_convex_conj', 'prox_convex_conj', 'prox_convex_conj'])
+        arg = {'kind': rng.choice(KINDS), 'dtype': other_dt(rng, dt, 0.2), 'seed': rng.randrange(10 ** 6),
+               'batch': rng.choice([[], [], [2]]) if cfg['dim'] is None or all(d < 0 for d in cfg['dim']) else []}
+        if call != 'forward':
+            arg['sigma'] = sigma_spec(rng)
+        return {'call': call, 'arg': arg}
+
+    def run(ctx, call, own, tag):
+        a = call['arg']
+        shape = list(a['batch']) + list(ctx['shape'])
+        x = make_tensor({'shape': shape, 'dtype': a['dtype'], 'kind': a['kind'], 'seed': a['seed']}, own, f'{tag}.x')
+        if call['call'] == 'forward':
+            _fire(ctx)
+            return ctx['op'](x)
+        sigma = make_sigma(a['sigma'], shape, REAL_OF[a['dtype']], own, f'{tag}.sigma')
+        _fire(ctx)
+        return getattr(ctx['op'], call['call'])(x, sigma)
+    TARGETS[cls] = Target(cls, _cfg_functional(cls), build, gen_call, run, 2.0 if cls == 'L1NormViewAsReal' else 1.0)
+
+
+FUNCTIONALS = ['L1Norm', 'L1NormViewAsReal', 'L2NormSquared', 'MSE', 'ZeroFunctional']
+for _f in FUNCTIONALS:
+    _add_functional(_f)
+
+
+def _cfg_sepsum(rng, dt):
+    n = rng.randint(2, 3)
+    return {'parts': [dict(_cfg_functional(None)(rng, dt), cls=rng.choice(FUNCTIONALS), scaled='no') for _ in range(n)]}
+
+
+def _build_sepsum(case, own):
+    from mrpro.operators import ProximableFunctionalSeparableSum
+    fs = [_mk_functional(p['cls'], p, case['dtype'], case['seed'] + 10 * i, own, f'ctor.f{i}')[0]
+          for i, p in enumerate(case['cfg']['parts'])]
+    how = case['seed'] % 2
+    op = ProximableFunctionalSeparableSum(*fs) if how else (fs[0] | fs[1] if len(fs) == 2 else (fs[0] | fs[1]) | fs[2])
+    return {'op': op, 'watch': [op] + fs, 'shapes': [p['shape'] for p in case['cfg']['parts']]}
+
+
+def _gen_sepsum(rng, cfg, dt, tier):
+    n = len(cfg['parts'])
+    kinds = [rng.choice(KINDS) for _ in range(n)]
+    call = rng.choice(['forward', 'prox', 'prox_convex_conj', 'prox_convex_conj'])
+    arg = {'kinds': kinds, 'kind': '+'.join(sorted(set(kinds))), 'dtype': dt, 'seed': rng.randrange(10 ** 6)}
+    if call != 'forward':
+        arg['sigma'] = sigma_spec(rng)
+        if arg['sigma']['form'] not in ('py', '0dim', '1elem'):
+            arg['sigma']['form'] = rng.choice(['py', '0dim', '1elem', '0dim', '1elem'])
+    return {'call': call, 'arg': arg}
+
+
+def _run_sepsum(ctx, call, own, tag):
+    a = call['arg']
+    xs = [make_tensor({'shape': sh, 'dtype': a['dtype'], 'kind': k, 'seed': a['seed'] + i}, own, f'{tag}.x{i}')
+          for i, (sh, k) in enumerate(zip(ctx['shapes'], a['kinds']))]
+    if call['call'] == 'forward':
+        _fire(ctx)
+        return ctx['op'](*xs)
+    sigma = make_sigma(a['sigma'], [], REAL_OF[a['dtype']], own, f'{tag}.sigma')
+    _fire(ctx)
+    return getattr(ctx['op'], call['call'])(*xs, sigma=sigma)
+
+
+TARGETS['ProximableFunctionalSeparableSum'] = Target('ProximableFunctionalSeparableSum', _cfg_sepsum, _build_sepsum, _gen_sepsum,
+                                                     _run_sepsum, 1.5)
+FUNC_NAMES = FUNCTIONALS + ['ProximableFunctionalSeparableSum']
+
+
+# ------------------------------------------------------------------------------------------------
+# optimisers
+# ------------------------------------------------------------------------------------------------
+def _cfg_opt(rng, dt):
+    n, m = rng.randint(1, 4), rng.randint(1, 4)
+    return {'n': n, 'm': m, 'mkind': rng.choice(KINDS), 'lam': rng.choice([0.25, 1.0]), 'batch': rng.choice([[], [], [2]]),
+            'op': rng.choice(['einsum', 'einsum', 'identity', 'scaled_identity'])}
+
+
+def _normal_op(cfg, dt, seed, own):
+    """Self-adjoint positive operator H = A^H A + lam I (A caller-owned matrix), or (scaled) identity."""
+    import mrpro.operators as ops
+    if cfg['op'] == 'identity':
+        return ops.IdentityOp(), None
+    if cfg['op'] == 'scaled_identity':
+        return 2.0 * ops.IdentityOp(), None
+    a = make_tensor({'shape': [cfg['m'], cfg['n']], 'dtype': dt, 'kind': cfg['mkind'], 'seed': seed}, own, 'ctor.matrix')
+    e = ops.EinsumOp(a)
+    return e.H @ e + cfg['lam'] * ops.IdentityOp(), e
+
+
+def _build_cg(case, own):
+    h, e = _normal_op(case['cfg'], case['dtype'], case['seed'], own)
+    return {'op': h, 'watch': [h, e], 'shape': case['cfg']['batch'] + [case['cfg']['n']]}
+
+
+def _gen_cg(rng, cfg, dt, tier):
+    return {'call': 'cg', 'arg': {'init': rng.choice(['none', 'given', 'given', 'rhs_itself', 'zeros']), 'iters': rng.randint(1, 4),
+                                  'kind': rng.choice(KINDS), 'ikind': rng.choice(KINDS), 'dtype': dt if rng.random() < 0.85 else other_dt(rng, dt, 1.0),
+                                  'tol': rng.choice([0.0, 1e-4]), 'callback': rng.random() < 0.4, 'seed': rng.randrange(10 ** 6)}}
+
+
+def _run_cg(ctx, call, own, tag):
+    from mrpro.algorithms.optimizers import cg
+    a = call['arg']
+    b = make_tensor({'shape': ctx['shape'], 'dtype': a['dtype'], 'kind': a['kind'], 'seed': a['seed']}, own, f'{tag}.right_hand_side')
+    x0 = None
+    if a['init'] == 'given':
+        x0 = make_tensor({'shape': ctx['shape'], 'dtype': a['dtype'], 'kind': a['ikind'], 'seed': a['seed'] + 1}, own, f'{tag}.initial_value')
+    elif a['init'] == 'zeros':
+        x0 = own(f'{tag}.initial_value', torch.zeros(ctx['shape'], dtype=DT[a['dtype']]))
+    elif a['init'] == 'rhs_itself':
+        x0 = b
+    seen = []
+
+    def cb(status):
+        seen.append((int(status['iteration_number']), status['solution'][0].detach().clone(), status['residual'].detach().clone()))
+    _fire(ctx)
+    x = cg(ctx['op'], b, initial_value=x0, max_iterations=a['iters'], tolerance=a['tol'], callback=cb if a['callback'] else None)
+    return (x, [s[0] for s in seen], [s[1] for s in seen], [s[2] for s in seen])
+
+
+TARGETS['cg'] = Target('cg', _cfg_opt, _build_cg, _gen_cg, _run_cg, 2.0)
+
+
+def _build_min(case, own):
+    """f(x) = || A x - b ||_2^2 (+ second block) built from operators; A and b caller-owned."""
+    import mrpro.operators as ops
+    from mrpro.operators.functionals import L2NormSquared
+    c, dt, seed = case['cfg'], case['dtype'], case['seed']
+    a = make_tensor({'shape': [c['m'], c['n']], 'dtype': dt, 'kind': c['mkind'], 'seed': seed}, own, 'ctor.matrix')
+    b = make_tensor({'shape': c['batch'] + [c['m']], 'dtype': dt, 'kind': 'plain', 'seed': seed + 1}, own, 'ctor.target')
+    e = ops.EinsumOp(a)
+    l2 = L2NormSquared(target=b, divide_by_n=False)
+    f = l2 @ e
+    return {'op': f, 'watch': [f, e, l2], 'shape': c['batch'] + [c['n']]}
+
+
+def _gen_min(which):
+    def gen(rng, cfg, dt, tier):
+        a = {'kind': rng.choice(KINDS), 'dtype': dt, 'seed': rng.randrange(10 ** 6), 'iters': rng.randint(1, 3),
+             'requires_grad': rng.random() < 0.3, 'callback': rng.random() < 0.3, 'lr': rng.choice([0.125, 0.5, 1.0])}
+        if which == 'adam':
+            a['amsgrad'] = rng.random() < 0.3
+            a['decoupled'] = rng.random() < 0.3
+            a['weight_decay'] = rng.choice([0, 0, 0.125])
+        else:
+            a['line_search'] = rng.choice(['strong_wolfe', None])
+        return {'call': which, 'arg': a}
+    return gen
+
+
+def _run_min(ctx, call, own, tag):
+    from mrpro.algorithms.optimizers import adam, lbfgs
+    a = call['arg']
+    x0 = make_tensor({'shape': ctx['shape'], 'dtype': a['dtype'], 'kind': a['kind'], 'seed': a['seed']}, own, f'{tag}.initial_parameters')
+    if a['requires_grad'] and x0.is_leaf:
+        x0.requires_grad_(True)
+    seen = []
+
+    def cb(status):
+        seen.append((int(status['iteration_number']), status['solution'][0].detach().clone()))
+    params = [x0]
+    own(f'{tag}.initial_parameters_list', params)
+    _fire(ctx)
+    if call['call'] == 'adam':
+        res = adam(ctx['op'], params, max_iter=a['iters'], lr=a['lr'], amsgrad=a['amsgrad'], decoupled_weight_decay=a['decoupled'],
+                   weight_decay=a['weight_decay'], callback=cb if a['callback'] else None)
+    else:
+        res = lbfgs(ctx['op'], params, lr=a['lr'], max_iter=a['iters'], line_search_fn=a['line_search'],
+                    callback=cb if a['callback'] else None)
+    return (tuple(r.detach() for r in res), [s[0] for s in seen], [s[1] for s in seen])
+
+
+def _cfg_min(rng, dt):
+    c = _cfg_opt(rng, dt)
+    c['_dtype'] = dt if rng.random() < 0.3 else REAL_OF[dt]
+    return c
+
+
+def _cfg_lbfgs(rng, dt):
+    c = _cfg_opt(rng, dt)
+    c['_dtype'] = REAL_OF[dt]
+    return c
+
+
+TARGETS['adam'] = Target('adam', _cfg_min, _build_min, _gen_min('adam'), _run_min, 1.0, max_len=5)
+TARGETS['lbfgs'] = Target('lbfgs', _cfg_lbfgs, _build_min, _gen_min('lbfgs'), _run_min, 1.0, max_len=5)
+OPT_NAMES = ['cg', 'adam', 'lbfgs']
+
+
+# ------------------------------------------------------------------------------------------------
+# reconstructions
+# ------------------------------------------------------------------------------------------------
+def _kd_cfg(rng, small=False):
+    return {'n_other': rng.randint(1, 2), 'n_coils': rng.randint(1, 3), 'n_k2': rng.choice([1, 1, 2]),
+            'n_k1': rng.choice([2, 4] if small else [4, 6]), 'n_k0': rng.choice([4, 6] if small else [4, 8])}
+
+
+def _cfg_recon(rng, dt):
+    which = rng.choice(['DirectReconstruction', 'IterativeSENSEReconstruction', 'RegularizedIterativeSENSEReconstruction',
+                        'RegularizedIterativeSENSEReconstruction'])
+    ident = rng.random() < 0.5
+    bare = ident and rng.random() < 0.75  # identity Fourier operator, no csm / dcf / noise: every stage may alias kdata.data
+    return {'which': which, 'kd': _kd_cfg(rng, small=True), 'fourier': 'identity' if ident else 'fourier',
+            'csm': False if bare else rng.random() < 0.6, 'dcf': False if bare else rng.random() < 0.5,
+            'noise': False if bare else rng.random() < 0.3,
+            'iters': rng.randint(1, 3), 'reg_data': rng.choice(['float', 'tensor', 'tensor', 'tensor0']),
+            'reg_weight': rng.choice(['float', 'tensor0', 'float']), 'reg_op': rng.choice(['none', 'none', 'identity']),
+            '_dtype': 'c64'}
+
+
+def _build_recon(case, own):
+    import mrpro.operators as ops
+    from mrpro.algorithms import reconstruction as R
+    from mrpro.data import CsmData, DcfData, KNoise
+    c, seed, dt = case['cfg'], case['seed'], case['dtype']
+    kdc = c['kd']
+    kd0, _ = make_kdata(dict(kdc, n_other=1), seed, lambda n, x: x)
+    if c['fourier'] == 'identity':
+        fop = ops.IdentityOp()
+    else:
+        fop = ops.FourierOp.from_kdata(kd0)
+    img = [1, kdc['n_coils'], kdc['n_k2'], kdc['n_k1'], kdc['n_k0']]
+    csm = dcf = noise = None
+    if c['csm']:
+        t = make_tensor({'shape': img, 'dtype': dt, 'kind': 'plain', 'seed': seed + 1}, own, 'ctor.csm.data')
+        csm = own('ctor.csm', CsmData(t, kd0.header))
+    if c['dcf']:
+        t = make_tensor({'shape': [1, kdc['n_k2'], kdc['n_k1'], kdc['n_k0']], 'dtype': 'f32', 'kind': 'plain', 'seed': seed + 2,
+                         'lo': 1, 'hi': 8}, own, 'ctor.dcf.data')
+        dcf = own('ctor.dcf', DcfData(t))
+    if c['noise']:
+        g = torch.Generator().manual_seed(seed + 4)
+        t = own('ctor.noise.data', torch.complex(torch.randn(1, kdc['n_coils'], 1, 1, 32, generator=g),
+                                                 torch.randn(1, kdc['n_coils'], 1, 1, 32, generator=g)))
+        noise = own('ctor.noise', KNoise(t))
+    kw = {}
+    if c['which'] != 'DirectReconstruction':
+        kw['n_iterations'] = c['iters']
+    if c['which'] == 'RegularizedIterativeSENSEReconstruction':
+        ishape = img if csm is None else [1, 1] + img[2:]
+        if c['reg_data'] == 'float':
+            kw['regularization_data'] = 0.5
+        elif c['reg_data'] == 'tensor0':
+            kw['regularization_data'] = own('ctor.regularization_data', torch.tensor(0.5 + 0.25j, dtype=DT[dt]))
+        else:
+            kw['regularization_data'] = make_tensor({'shape': ishape, 'dtype': dt, 'kind': 'plain', 'seed': seed + 3}, own,
+                                                    'ctor.regularization_data')
+        kw['regularization_weight'] = 0.5 if c['reg_weight'] == 'float' else own('ctor.regularization_weight', torch.tensor(0.5))
+        if c['reg_op'] == 'identity':
+            kw['regularization_op'] = ops.IdentityOp()
+    rec = getattr(R, c['which'])(fourier_op=fop, csm=csm, dcf=dcf, noise=noise, **kw)
+    return {'op': rec, 'watch': [rec, fop], 'kd': kdc}
+
+
+def _gen_recon(rng, cfg, dt, tier):
+    return {'call': rng.choice(['forward', 'forward', 'forward', 'direct_reconstruction']),
+            'arg': {'n_other': rng.choice([1, 1, 2]), 'kind': rng.choice(['plain', 'view', 'noncontig', 'plain']),
+                    'seed': rng.randrange(10 ** 6)}}
+
+
+def _kdata_arg(kdc, a, own, tag, dt='c64'):
+    """A caller-owned KData whose data tensor is plain / a view of a larger base / non-contiguous."""
+    from mrpro.data import KData
+    kd, _ = make_kdata(dict(kdc, n_other=a.get('n_other', kdc['n_other'])), a['seed'], lambda n, x: x, dt=dt)
+    data = make_tensor({'shape': list(kd.data.shape), 'dtype': dt, 'kind': a['kind'], 'seed': a['seed']}, own, f'{tag}.kdata.data')
+    kd = KData(kd.header, data, kd.traj)
+    return own(f'{tag}.kdata', kd)
+
+
+def _run_recon(ctx, call, own, tag):
+    kd = _kdata_arg(ctx['kd'], call['arg'], own, tag)
+    _fire(ctx)
+    if call['call'] == 'direct_reconstruction':
+        return ctx['op'].direct_reconstruction(kd)
+    return ctx['op'](kd)
+
+
+TARGETS['Reconstruction'] = Target('Reconstruction', _cfg_recon, _build_recon, _gen_recon, _run_recon, 1.0, max_len=5)
+RECON_NAMES = ['Reconstruction']
+
+
+# ------------------------------------------------------------------------------------------------
+# KData transformations
+# ------------------------------------------------------------------------------------------------
+KD_CALLS = ['split_k1_into_other', 'split_k1_into_other', 'split_k2_into_other', 'select_other_subset', 'rearrange_k2_k1_into_k1',
+            'remove_readout_os', 'compress_coils']
+LABELS = ['average', 'slice', 'contrast', 'phase', 'set']
+
+
+def _cfg_kdt(rng, dt):
+    n0 = rng.choice([4, 8])
+    return {'kd': {'n_other': rng.randint(1, 2), 'n_coils': rng.randint(2, 3), 'n_k2': rng.choice([2, 4]), 'n_k1': rng.choice([4, 6]),
+                   'n_k0': n0, 'recon_x': rng.choice([n0, n0 // 2]), 'discard': rng.choice([0, 2])},
+            'kind': rng.choice(['plain', 'view', 'noncontig']), '_dtype': rng.choice(['c64', 'c64', 'c128'])}
+
+
+def _build_kdt(case, own):
+    c = case['cfg']
+    kd = _kdata_arg(c['kd'], {'seed': case['seed'], 'kind': c['kind']}, own, 'source', dt=case['dtype'])
+    return {'op': kd, 'watch': [kd], 'kd': c['kd']}
+
+
+def _gen_kdt(rng, cfg, dt, tier):
+    call = rng.choice(KD_CALLS)
+    kd = cfg['kd']
+    a = {'seed': rng.randrange(10 ** 6), 'kind': rng.choice(['plain', 'view', 'noncontig'])}
+    if call.startswith('split'):
+        n = kd['n_k1'] if 'k1' in call else kd['n_k2']
+        per = rng.choice([d for d in range(1, n + 1) if n % d == 0])
+        perm = list(range(n))
+        if rng.random() < 0.5:
+            rng.shuffle(perm)
+        a['idx'] = [perm[i:i + per] for i in range(0, n, per)]
+        a['label'] = rng.choice(LABELS + (['repetition'] if kd['n_other'] == 1 else []))
+    elif call == 'select_other_subset':
+        a['idx'] = rng.sample(range(kd['n_other']), rng.randint(1, kd['n_other']))
+    elif call == 'compress_coils':
+        a['n'] = rng.randint(1, kd['n_coils'])
+        a['mode'] = rng.choice(['default', 'batch', 'joint'])
+    return {'call': call, 'arg': a}
+
+
+def _idx_tensor(a, own, name):
+    t = torch.tensor(a['idx'])
+    if a['kind'] == 'view':
+        base = own(name + '.base', torch.cat([t, t], -1))
+        t = base[..., : t.shape[-1]]
+    elif a['kind'] == 'noncontig' and t.ndim == 2:
+        base = own(name + '.base', t.t().contiguous())
+        t = base.t()
+    return own(name, t)
+
+
+def _run_kdt(ctx, call, own, tag):
+    kd, a, name = ctx['op'], call['arg'], call['call']
+    if name.startswith('split'):
+        idx = _idx_tensor(a, own, f'{tag}.split_idx')
+        _fire(ctx)
+        return getattr(kd, name)(idx, a['label'])
+    if name == 'select_other_subset':
+        idx = _idx_tensor(a, own, f'{tag}.subset_idx')
+        _fire(ctx)
+        return kd.select_other_subset(idx, 'repetition')
+    _fire(ctx)
+    if name == 'compress_coils':
+        if a['mode'] == 'batch':
+            return kd.compress_coils(a['n'], batch_dims=(0,))
+        if a['mode'] == 'joint':
+            return kd.compress_coils(a['n'], joint_dims=(-1, -2, -3))
+        return kd.compress_coils(a['n'])
+    return getattr(kd, name)()
+
+
+TARGETS['KData'] = Target('KData', _cfg_kdt, _build_kdt, _gen_kdt, _run_kdt, 1.0)
+KDT_NAMES = ['KData']
+
+
+# ------------------------------------------------------------------------------------------------
+# trajectory calculators, dcf, prewhitening, csm
+# ------------------------------------------------------------------------------------------------
+def _cfg_trajcalc(rng, dt):
+    which = rng.choice(['KTrajectoryCartesian', 'KTrajectoryRadial2D', 'KTrajectoryRpe', 'KTrajectoryRpe',
+                        'KTrajectorySunflowerGoldenRpe'])
+    return {'which': which, 'shift': rng.choice(['default', 'tuple', 'tensor']), 'angle': rng.choice([0.5, 1.9416]),
+            'variants': [_kd_cfg(rng) for _ in range(3)], '_dtype': 'c64'}
+
+
+def _build_trajcalc(case, own):
+    from mrpro.data import traj_calculators as T
+    c = case['cfg']
+    if c['which'] == 'KTrajectoryRpe':
+        kw = {}
+        if c['shift'] == 'tuple':
+            kw['shift_between_rpe_lines'] = (0, 0.5)
+        elif c['shift'] == 'tensor':
+            kw['shift_between_rpe_lines'] = own('ctor.shift_between_rpe_lines', torch.tensor([0.0, 0.5, 0.25]))
+        calc = T.KTrajectoryRpe(c['angle'], **kw)
+    elif c['which'] == 'KTrajectoryRadial2D':
+        calc = T.KTrajectoryRadial2D(c['angle'])
+    elif c['which'] == 'KTrajectorySunflowerGoldenRpe':
+        calc = T.KTrajectorySunflowerGoldenRpe(rad_us_factor=1.0)
+    else:
+        calc = T.KTrajectoryCartesian()
+    return {'op': calc, 'watch': [calc], 'variants': c['variants']}
+
+
+def _gen_trajcalc(rng, cfg, dt, tier):
+    return {'call': 'calculate', 'arg': {'variant': rng.randrange(3), 'seed': rng.randrange(10 ** 6), 'kind': 'header'}}
+
+
+def _run_trajcalc(ctx, call, own, tag):
+    a = call['arg']
+    _, header = make_kdata(ctx['variants'][a['variant']], a['seed'], lambda n, x: x)
+    own(f'{tag}.kheader', header)
+    _fire(ctx)
+    return ctx['op'](header)
+
+
+TARGETS['KTrajectoryCalculator'] = Target('KTrajectoryCalculator', _cfg_trajcalc, _build_trajcalc, _gen_trajcalc, _run_trajcalc, 2.0)
+
+
+def _gen_trajmrd(rng, cfg, dt, tier):
+    return {'call': rng.choice(['KTrajectoryIsmrmrd', 'KTrajectoryIsmrmrd+sort_and_reshape']),
+            'arg': {'n_acq': rng.choice([2, 4, 6]), 'n_k0': rng.randint(2, 5), 'dims': rng.choice([2, 3]),
+                    'seed': rng.randrange(10 ** 6), 'kind': 'acquisitions'}}
+
+
+def _run_trajmrd(ctx, call, own, tag):
+    import ismrmrd
+    import numpy as np
+    from mrpro.data.traj_calculators import KTrajectoryIsmrmrd
+    a = call['arg']
+    g = torch.Generator().manual_seed(a['seed'])
+    acqs = []
+    for i in range(a['n_acq']):
+        acq = ismrmrd.Acquisition()
+        acq.resize(a['n_k0'], 1, trajectory_dimensions=a['dims'])
+        acq.traj[:] = (torch.randint(-8, 9, (a['n_k0'], a['dims']), generator=g).to(torch.float32) / 4).numpy()
+        own(f'{tag}.acquisitions[{i}].traj', acq.traj)
+        acqs.append(acq)
+    sort_idx = own(f'{tag}.sort_idx', np.array(list(reversed(range(a['n_acq'])))))
+    _fire(ctx)
+    raw = KTrajectoryIsmrmrd()(acqs)
+    if call['call'].endswith('sort_and_reshape'):
+        return raw.sort_and_reshape(sort_idx, n_k2=1, n_k1=a['n_acq'] // 2)
+    return raw
+
+
+def _fn_target(name, gen_call, run, weight=1.0, max_len=None):
+    TARGETS[name] = Target(name, lambda rng, dt: {}, lambda case, own: {'op': None, 'watch': []}, gen_call, run, weight, max_len)
+
+
+def _gen_dcf(rng, cfg, dt, tier):
+    call = rng.choice(['dcf_1d', 'dcf_2d3d_voronoi', 'DcfData.from_traj_voronoi'])
+    a = {'seed': rng.randrange(10 ** 6), 'kind': rng.choice(KINDS if call != 'dcf_2d3d_voronoi' else ['plain', 'view', 'noncontig']),
+         'dtype': rng.choice(['f32', 'f32', 'f32', 'f32', 'f64'])}
+    if call == 'dcf_1d':
+        a['n'] = rng.randint(1, 8)
+        a['repeats'] = rng.random() < 0.4
+    elif call == 'dcf_2d3d_voronoi':
+        a['d'] = rng.choice([2, 2, 3])
+        a['shape'] = [1, rng.randint(3, 4), rng.randint(3, 4)] if a['d'] == 2 else [2, 3, 3]
+    else:
+        a['traj'] = rng.choice(['cart', 'radial'])
+        a['ny'], a['nx'], a['spokes'] = rng.randint(2, 5), rng.randint(3, 6), rng.randint(3, 4)
+    return {'call': call, 'arg': a}
+
+
+def _run_dcf(ctx, call, own, tag):
+    from mrpro.algorithms.dcf import dcf_1d, dcf_2d3d_voronoi
+    a = call['arg']
+    if call['call'] == 'dcf_1d':
+        t = make_tensor({'shape': [a['n']], 'dtype': a['dtype'], 'kind': a['kind'], 'seed': a['seed'], 'lo': -16, 'hi': 16,
+                         'scale': 1.0 if a['repeats'] else 0.25}, own, f'{tag}.traj')
+        _fire(ctx)
+        return dcf_1d(t)
+    if call['call'] == 'dcf_2d3d_voronoi':
+        t = make_tensor({'shape': [a['d']] + a['shape'], 'dtype': a['dtype'], 'kind': a['kind'], 'seed': a['seed'], 'lo': -64,
+                         'hi': 64, 'scale': 1 / 16}, own, f'{tag}.traj')
+        _fire(ctx)
+        return dcf_2d3d_voronoi(t)
+    from mrpro.data import DcfData
+    traj = _traj(a['traj'], a, a['seed'], own, f'{tag}.traj')
+    _fire(ctx)
+    return DcfData.from_traj_voronoi(traj)
+
+
+_fn_target('dcf', _gen_dcf, _run_dcf, 1.5, max_len=6)
+_fn_target('KTrajectoryIsmrmrd', _gen_trajmrd, _run_trajmrd, 0.7, max_len=4)
+
+
+def _gen_prewhiten(rng, cfg, dt, tier):
+    return {'call': 'prewhiten_kspace', 'arg': {'kd': _kd_cfg(rng, small=True), 'seed': rng.randrange(10 ** 6),
+                                                'kind': rng.choice(['plain', 'view', 'noncontig']),
+                                                'nkind': rng.choice(['plain', 'view', 'noncontig']),
+                                                'scale': rng.choice(['default', 'float', 'tensor'])}}
+
+
+def _run_prewhiten(ctx, call, own, tag):
+    from mrpro.algorithms.prewhiten_kspace import prewhiten_kspace
+    from mrpro.data import KNoise
+    a = call['arg']
+    kd = _kdata_arg(a['kd'], a, own, tag)
+    g = torch.Generator().manual_seed(a['seed'] + 9)
+    nc = a['kd']['n_coils']
+    nshape = [1, nc, 1, 1, 24]
+    noise = torch.complex(torch.randn(nshape, generator=g), torch.randn(nshape, generator=g))
+    if a['nkind'] == 'view':
+        base = own(f'{tag}.knoise.base', torch.cat([noise, noise], -1))
+        noise = base[..., :24]
+    elif a['nkind'] == 'noncontig':
+        base = own(f'{tag}.knoise.base', noise.transpose(-1, 1).contiguous())
+        noise = base.transpose(-1, 1)
+    own(f'{tag}.knoise.data', noise)
+    kn = own(f'{tag}.knoise', KNoise(noise))
+    kw = {}
+    if a['scale'] == 'float':
+        kw['scale_factor'] = 2.0
+    elif a['scale'] == 'tensor':
+        kw['scale_factor'] = own(f'{tag}.scale_factor', torch.tensor(4.0))
+    _fire(ctx)
+    return prewhiten_kspace(kd, kn, **kw)
+
+
+_fn_target('prewhiten_kspace', _gen_prewhiten, _run_prewhiten, 1.0, max_len=5)
+
+
+def _gen_csm(rng, cfg, dt, tier):
+    return {'call': rng.choice(['walsh', 'inati', 'CsmData.from_idata_walsh', 'CsmData.from_idata_inati']),
+            'arg': {'shape': [rng.randint(1, 3), rng.choice([1, 1, 2]), rng.randint(2, 4), rng.randint(2, 4)],
+                    'kind': rng.choice(KINDS), 'dtype': rng.choice(['c64', 'c64', 'c128']), 'seed': rng.randrange(10 ** 6),
+                    'width': rng.choice(['int', 'spatial'])}}
+
+
+def _run_csm(ctx, call, own, tag):
+    from mrpro.algorithms.csm import inati, walsh
+    from mrpro.data import SpatialDimension
+    a = call['arg']
+    name = call['call']
+    if name in ('walsh', 'inati'):
+        x = make_tensor({'shape': a['shape'], 'dtype': a['dtype'], 'kind': a['kind'], 'seed': a['seed']}, own, f'{tag}.coil_images')
+        w = 3 if a['width'] == 'int' else own(f'{tag}.smoothing_width', SpatialDimension(1, 3, 3))
+        _fire(ctx)
+        return (walsh if name == 'walsh' else inati)(x, w)
+    from mrpro.data import CsmData, IData
+    x = make_tensor({'shape': [2] + a['shape'], 'dtype': a['dtype'], 'kind': a['kind'], 'seed': a['seed']}, own, f'{tag}.idata.data')
+    kd, _ = make_kdata({'n_other': 1, 'n_coils': 1, 'n_k2': 1, 'n_k1': 2, 'n_k0': 2}, a['seed'], lambda n, y: y)
+    idata = own(f'{tag}.idata', IData.from_tensor_and_kheader(x, kd.header))
+    w = 3 if a['width'] == 'int' else own(f'{tag}.smoothing_width', SpatialDimension(1, 3, 3))
+    _fire(ctx)
+    fn = CsmData.from_idata_walsh if name.endswith('walsh') else CsmData.from_idata_inati
+    return fn(idata, w, chunk_size_otherdim=None if a['seed'] % 2 else 1)
+
+
+_fn_target('csm', _gen_csm, _run_csm, 1.5, max_len=5)
+TDC_NAMES = ['KTrajectoryCalculator', 'dcf', 'prewhiten_kspace', 'csm', 'KTrajectoryIsmrmrd']
+
+
+# ------------------------------------------------------------------------------------------------
+def _fam(name, names, q, t):
+    return Family(name, gen_for(names, q, t), impl, None, '', None, oracle, nontrivial=nontrivial, descr=descr,
+                  theorem='C10_history (dynamic monitor)')
+
 
 FAMILIES = [
-    Family('linop_histories', gen_for(LINOP_NAMES, 70, 1500), impl, None, '', None, oracle, nontrivial=nontrivial, descr=descr,
-           theorem='C10_history (dynamic monitor)'),
+    _fam('linop_histories', LINOP_NAMES, 90, 2000),
+    _fam('nonlinear_histories', NONLIN_NAMES, 30, 700),
+    _fam('functional_histories', FUNC_NAMES, 60, 1800),
+    _fam('optimizer_histories', OPT_NAMES, 30, 700),
+    _fam('recon_histories', RECON_NAMES, 24, 400),
+    _fam('kdata_transform_histories', KDT_NAMES, 20, 400),
+    _fam('traj_dcf_csm_histories', TDC_NAMES, 30, 600),
 ]
